@@ -351,3 +351,23 @@ def t_numpy_bool(u):
     n += 1000000 if (float(m) < 5.0) is True else 0
     n += 10000000 if (np.sqrt(4.0) == 2.0) is True else 0
     return n * u
+
+
+def _classify(v):
+    match v:
+        case str() as s_:
+            return 1 + len(s_)
+        case list() | tuple() as seq:
+            return 10 + len(seq)
+        case int() | float():
+            return 100
+        case {"k": val}:
+            return 1000 + val
+        case [a, b]:
+            return 5
+        case _:
+            return -1
+
+
+def t_match_class_patterns(u):
+    return (_classify("ab") + _classify([1, 2, 3]) + _classify((1,)) + _classify(7) + _classify(2.5) + _classify({"k": 4}) + _classify(None)) * u
